@@ -8,6 +8,7 @@ import numpy as np
 import xarray as xr
 
 SPECTRA = ("geometric", "flat_pair", "clustered", "rank_def", "near_equal_var")
+EXTRA_SPECTRA = ("slow",)  # requested by name only, not part of the loops over SPECTRA
 
 
 def spectrum(kind, r):
@@ -28,6 +29,8 @@ def spectrum(kind, r):
         s[nz:] = 0.0
     elif kind == "near_equal_var":
         s = 4.0 * (1.0 - 0.05 * i / max(1, r - 1))
+    elif kind == "slow":  # slowly decaying, every gap >= 1 %: a truncated sketch of it is genuinely lossy (not in SPECTRA: requested by name)
+        s = 4.0 / (1.0 + 0.25 * i)
     else:
         raise ValueError(kind)
     return s
@@ -48,7 +51,7 @@ def _orth(rng, n, r, complex_, perp_ones):
 
 def make_matrix(n, p, spec="geometric", scale=1.0, complex_=False, seed=0, mean=True, salt=0):
     """n x p matrix whose centred part is U diag(s) V^H with U ⟂ 1 (rank min(n-1,p)), plus a mean row."""
-    rng = np.random.default_rng([int(seed), n, p, SPECTRA.index(spec), int(complex_), int(salt)])
+    rng = np.random.default_rng([int(seed), n, p, (SPECTRA + EXTRA_SPECTRA).index(spec), int(complex_), int(salt)])
     r = min(n - 1, p)
     s = spectrum(spec, r)
     U = _orth(rng, n, r, complex_, True)
